@@ -29,10 +29,11 @@ a435  == <<Q(4, 5), Q(3, 5)>>
 am345 == <<Q(-3, 5), Q(4, 5)>>
 C(v) == <<"c", v>>
 P(i) == <<"p", i>>
+R(i) == <<"r", i>>                                       \* real-valued (not angle-valued) parameter array
 TCmd(name, e, pos, dag) == [name |-> name, e |-> e, pos |-> pos, dag |-> dag]
 
 \* ---- templates ------------------------------------------------------------------------------------
-Bands == CASE TemplateId = "n2" -> <<2>> [] TemplateId = "n3" -> <<3>> [] TemplateId = "n3b" -> <<3>> [] TemplateId = "b22" -> <<2, 2>>
+Bands == CASE TemplateId = "n2" -> <<2>> [] TemplateId = "n3" -> <<3>> [] TemplateId = "n3b" -> <<3>> [] TemplateId = "b22" -> <<2, 2>> [] TemplateId = "b23" -> <<2, 3>> [] TemplateId = "b352" -> <<3, 5, 2>> [] TemplateId = "n2x" -> <<2>>
 Bin == CASE TemplateId = "n2" ->
               << TCmd("Sgate", <<C(Q(4, 3)), C(A0)>>, <<1>>, FALSE), TCmd("BSgate", <<P(1), C(A0)>>, <<0, 1>>, FALSE),
                  TCmd("Rgate", <<P(2)>>, <<1>>, FALSE), TCmd("MeasureHomodyne", <<P(3)>>, <<0>>, FALSE) >>
@@ -48,6 +49,24 @@ Bin == CASE TemplateId = "n2" ->
                  TCmd("BSgate", <<P(1), C(A0)>>, <<1, 3>>, FALSE), TCmd("BSgate", <<P(2), C(APi2)>>, <<0, 1>>, FALSE),
                  TCmd("Rgate", <<P(3)>>, <<2>>, FALSE),
                  TCmd("MeasureHomodyne", <<P(3)>>, <<0>>, FALSE), TCmd("MeasureHomodyne", <<P(1)>>, <<2>>, FALSE) >>
+         \* band sizes that do not divide each other: the measurement pattern repeats after lcm(2, 3) bins, not after max
+         [] TemplateId = "b23" ->
+              << TCmd("Sgate", <<C(Q(4, 3)), C(A0)>>, <<1>>, FALSE), TCmd("Sgate", <<C(Q(3, 4)), C(A0)>>, <<4>>, FALSE),
+                 TCmd("BSgate", <<P(1), C(A0)>>, <<1, 4>>, FALSE), TCmd("BSgate", <<P(2), C(APi2)>>, <<0, 1>>, FALSE),
+                 TCmd("BSgate", <<C(a345), C(A0)>>, <<2, 4>>, FALSE), TCmd("Rgate", <<P(3)>>, <<3>>, FALSE),
+                 TCmd("MeasureHomodyne", <<P(3)>>, <<0>>, FALSE), TCmd("MeasureHomodyne", <<P(1)>>, <<2>>, FALSE) >>
+         \* three bands with leading modes 0, 3, 8
+         [] TemplateId = "b352" ->
+              << TCmd("Sgate", <<C(Q(4, 3)), C(A0)>>, <<2>>, FALSE), TCmd("Dgate", <<C(Q(1, 2)), P(2)>>, <<7>>, FALSE),
+                 TCmd("Sgate", <<C(Q(3, 4)), C(APi2)>>, <<9>>, FALSE),
+                 TCmd("BSgate", <<P(1), C(A0)>>, <<2, 7>>, FALSE), TCmd("BSgate", <<P(2), C(APi2)>>, <<7, 9>>, FALSE),
+                 TCmd("MeasureHomodyne", <<P(3)>>, <<0>>, FALSE), TCmd("MeasureHomodyne", <<P(1)>>, <<3>>, FALSE),
+                 TCmd("MeasureHomodyne", <<C(A0)>>, <<8>>, FALSE) >>
+         \* gates the Gaussian compiler decomposes into gates whose arguments are expressions of the array parameter
+         [] TemplateId = "n2x" ->
+              << TCmd("Sgate", <<C(Q(4, 3)), C(A0)>>, <<1>>, FALSE), TCmd("Xgate", <<R(1)>>, <<1>>, FALSE),
+                 TCmd("BSgate", <<P(1), C(A0)>>, <<0, 1>>, FALSE), TCmd("CZgate", <<R(1)>>, <<0, 1>>, FALSE),
+                 TCmd("Zgate", <<R(1)>>, <<1>>, TRUE), TCmd("MeasureHomodyne", <<P(3)>>, <<0>>, FALSE) >>
 AngleCycle == <<a345, APi2, am345, A0, a435>>
 NArrays == 3
 Arr(i, t) == AngleCycle[((t + 2 * i) % 5) + 1]          \* value of the i-th array at time bin t (t from 0)
@@ -60,7 +79,9 @@ SumTo(s, k) == IF k = 0 THEN 0 ELSE s[k] + SumTo(s, k - 1)
 Ntot      == SumTo(Bands, NB)
 Off(b)    == SumTo(Bands, b - 1)                          \* first register position of band b (b from 1)
 BandOf(pos) == CHOOSE b \in 1 .. NB : Off(b) <= pos /\ pos < Off(b) + Bands[b]
-Val(src, t) == IF src[1] = "c" THEN src[2] ELSE Arr(src[2], t)
+ArrR(i, t) == Q(((t + i) % 3) - 1, 2)                   \* value of the i-th real array at time bin t
+NRArrays == 1
+Val(src, t) == IF src[1] = "c" THEN src[2] ELSE IF src[1] = "p" THEN Arr(src[2], t) ELSE ArrR(src[2], t)
 Params(c, t) == [i \in DOMAIN c.e |-> Val(c.e[i], t)]
 \* pulses of band b are numbered 0, 1, 2, ...; global mode label of a pulse in the explicit loop
 PulseLabel(b, p, s) == LET perBand(bb) == s * T + Bands[bb] - 1 IN SumTo([bb \in 1 .. NB |-> perBand(bb)], b - 1) + p
@@ -134,6 +155,7 @@ EmitHist == EMIT => PrintT(ToJson([kind |-> "hist", calls |-> calls, form |-> fo
 EmitStatic == (EMIT /\ calls = << >>) =>
    PrintT(ToJson([kind |-> "static", template |-> TemplateId, bands |-> Bands, T |-> T, bin |-> Bin,
                   arrays |-> [i \in 1 .. NArrays |-> [t \in 1 .. T |-> Arr(i, t - 1)]],
+                  rarrays |-> [i \in 1 .. NRArrays |-> [t \in 1 .. T |-> ArrR(i, t - 1)]],
                   explicit |-> [s \in 1 .. MaxShots |-> Explicit(s)],
                   joint |-> JointState(1),
                   chain |-> [s \in 1 .. MaxShots |-> Chain(s)],
